@@ -22,7 +22,7 @@ import (
 
 func TestMain(m *testing.M) {
 	kit.Main(m, "C06", "exploration",
-		"rapid-drawn (service, product, region suffix) and PAIRS of distinct partition ids constructed adversarially rather than filtered: Q = P + '_' + service + '_' + product (+ anything), Q = P + '_' + anything, prefixes/suffixes of each other, ids equal up to letter case / surrounding blanks / Unicode composition, ids embedding _IK_ / _SK_ / the region / underscores at every boundary, non-ASCII, plus uniform pairs; "+
+		"rapid-drawn (service, product, region suffix) and PAIRS of distinct partition ids constructed adversarially rather than filtered: Q = P + '_' + service + '_' + product (+ anything), Q = P + '_' + anything, prefixes/suffixes of each other, ids equal up to letter case / surrounding blanks / Unicode composition, ids that differ only in bytes that are not valid UTF-8, ids embedding _IK_ / _SK_ / the region / underscores at every boundary, non-ASCII, plus uniform pairs; "+
 			"with a plain store, a region-suffixing harness store, and both DynamoDB metastores over the semantic fake with region suffix on; cache states: P cold / warm, Q's key already in a shared IK cache, session cache, no cache. "+
 			"Oracle: a session for P given a record produced for Q must return an error (any non-error result is a violation, reported with whether the bytes equal Q's payload); both directions are tried, with one session open at a time and with both partitions' sessions open together, sessions closed once or twice (explicit + deferred Close); GetSession(\"\") is refused; a record of P itself still decrypts (no vacuous rejection). "+
 			"One evaluation = one pair. Non-trivial = the key id of Q's record and P's own key id share a prefix of at least len(\"_IK_\"+P) bytes, or suffixing is on; distinct = (store kind, construction class, cache state, ids)",
@@ -83,10 +83,10 @@ func drawWord(t *rapid.T, label string, extra ...string) string {
 }
 
 // drawPair constructs two distinct partition ids and names the construction.
-func drawPair(t *rapid.T, service, product, region string) (p, q, class string) {
+func drawPair(t *rapid.T, service, product, region string, byteIDs bool) (p, q, class string) {
 	p = drawWord(t, "p", service, product)
 	sp := "_" + service + "_" + product
-	switch rapid.IntRange(0, 11).Draw(t, "class") {
+	switch rapid.IntRange(0, 12).Draw(t, "class") {
 	case 0:
 		q, class = p+sp, "P+_service_product"
 	case 1:
@@ -103,6 +103,16 @@ func drawPair(t *rapid.T, service, product, region string) (p, q, class string) 
 		q, class = p+"_"+region, "P+_region"
 	case 7:
 		q, class = strings.TrimSuffix(p, sp), "P-without-suffix"
+	case 12:
+		// ids are byte strings: two ids that differ only in bytes that are not valid UTF-8 are different ids
+		// (only with stores that take arbitrary byte strings as ids)
+		if !byteIDs {
+			q, class = p+sp, "P+_service_product"
+			break
+		}
+		p += rapid.SampledFrom([]string{"\xe9", "\x80", "\xff\xfe"}).Draw(t, "badByte")
+		q = p[:len(p)-1] + string([]byte{p[len(p)-1] ^ 0x01})
+		class = "differ-in-invalid-utf8-byte"
 	case 10, 11:
 		// ids that a careless normalisation (case folding, trimming, Unicode composition) would identify
 		if !strings.ContainsAny(p, "abLIKSAé") {
@@ -147,7 +157,7 @@ func TestPairs(t *testing.T) {
 		// underscore-joined key-id scheme itself ambiguous and are not generated
 		service := strings.ReplaceAll(drawWord(t, "service"), "us-west-2", "svc")
 		product := strings.ReplaceAll(drawWord(t, "product"), "us-west-2", "prod")
-		p, q, class := drawPair(t, service, product, e.suffix)
+		p, q, class := drawPair(t, service, product, e.suffix, !strings.HasPrefix(e.kind, "dynamodb"))
 		cache := rapid.SampledFrom([]string{"default", "shared-ik", "shared-ik-lru1", "session-cache", "no-cache"}).Draw(t, "cache")
 		warm := rapid.Bool().Draw(t, "warmP")
 		pol := appencryption.NewCryptoPolicy()
